@@ -26,6 +26,7 @@ type KafkaMessageReceiver struct {
 	initialized    bool
 	initMutex      sync.RWMutex
 	partitionEOFs  int
+	eofPartitions  map[int32]struct{}
 	initBuffer     map[string]*wireMessage
 }
 
@@ -178,7 +179,12 @@ func (r *KafkaMessageReceiver) processEvent(ev kafka.Event) {
 	case *kafka.Message:
 		r.processMessage(e.Value)
 	case kafka.PartitionEOF:
-		r.partitionEOFs++
+		// count each partition once; the end of one partition may be signalled repeatedly before the others are caught up
+		if r.eofPartitions == nil {
+			r.eofPartitions = make(map[int32]struct{})
+		}
+		r.eofPartitions[e.Partition] = struct{}{}
+		r.partitionEOFs = len(r.eofPartitions)
 		if !r.initialized && r.partitionEOFs >= r.partitionCount {
 			r.initMutex.Lock()
 			defer r.initMutex.Unlock()
